@@ -229,7 +229,7 @@ class Interp:
             if src == 'Try':
                 # Continue(v) => v ; Break(r) => return
                 self.exits.append(st)
-                return st
+                return self.other(n, st)
             if src == 'ForLoopDesugar' and len(n['arms']) == 1:
                 # match into_iter(x) { mut iter => loop { match next(&mut iter) { None => break, Some(p) => body } } }
                 return self.ex(n['arms'][0]['b'], st)
@@ -498,3 +498,47 @@ def must_pass(fn, pred):
     ip = MustPass(pred)
     out = ip.run_fn(fn, False)
     return out is None or out is True
+
+
+class Dominates(Interp):
+    """collects, for every exit (return / tail) whose value satisfies `exit_pred`, whether a node satisfying `pred` was executed before it
+    on every path. state: True (passed) / False."""
+
+    def __init__(self, pred, exit_pred, refine_fn=None):
+        super().__init__(NoSpec())
+        self.pred, self.exit_pred, self.refine_fn = pred, exit_pred, refine_fn
+        self.bad_exits = []
+        self.good_exits = 0
+
+    def top(self, a, b):
+        return a and b
+
+    def join(self, a, b):
+        if a is None:
+            return b
+        if b is None:
+            return a
+        return a and b
+
+    def call(self, n, st):
+        if self.exit_pred(n):
+            # a value of the guarded kind (e.g. `Ok(..)`) is constructed here
+            if st is True:
+                self.good_exits += 1
+            else:
+                self.bad_exits.append(n)
+        return True if self.pred(n) else st
+
+    def other(self, n, st):
+        return True if self.pred(n) else st
+
+    def refine(self, cond, branch, st):
+        if self.refine_fn is not None:
+            r = self.refine_fn(cond, branch, st)
+            if r is not None:
+                return r
+        return st
+
+    def run(self, fn):
+        self.ex(fn['body'], False)
+        return self.bad_exits
